@@ -24,8 +24,8 @@ for fl in "$@"; do
     continue
   fi
   rm -f "$D"/*.o "$D/libvorbisall.a" "$D/KEY"
-  # harness binaries built against an older library are stale
-  rm -rf "$D/bin" "$B/zoo"
+  # harness binaries and zoo files are keyed on the tree hash by their makers (vlib.harness stamps, mkzoo signatures);
+  # nothing is deleted here, so that a check that is running while the tree changes is not pulled from under
   pids=()
   for s in $SRCS; do
     $CC $FL -Wno-error -w -I"$REPO/include" -I"$REPO/lib" ${VERIF_DEFS} -c "$REPO/lib/$s.c" -o "$D/$s.o" &
